@@ -185,3 +185,162 @@ pub fn campaign(ctx: &Ctx, ev: &mut Value, prop: &str, target: &str, mutating: b
     let _ = std::fs::remove_dir_all(&work);
     found
 }
+
+fn executions_in_logs(work: &Path) -> u64 {
+    let mut execs = 0u64;
+    if let Ok(rd) = std::fs::read_dir(work) {
+        for e in rd.flatten() {
+            let name = e.file_name().to_string_lossy().to_string();
+            if name.starts_with("fuzz-") && name.ends_with(".log") {
+                if let Ok(t) = std::fs::read_to_string(e.path()) {
+                    for line in t.lines().rev() {
+                        if let Some(rest) = line.strip_prefix("Done ") {
+                            execs += rest.split_whitespace().next().and_then(|x| x.parse::<u64>().ok()).unwrap_or(0);
+                            break;
+                        }
+                        if let Some(idx) = line.find("stat::number_of_executed_units:") {
+                            execs += line[idx..].split(':').last().and_then(|x| x.trim().parse::<u64>().ok()).unwrap_or(0);
+                            break;
+                        }
+                    }
+                }
+            }
+        }
+    }
+    execs
+}
+
+/// Coverage-guided campaign over operation histories (`fz_hist`): the fuzz bytes are decoded
+/// by fuzzdec.rs (one 16-byte record per operation) under the op weights of the property's
+/// own workers; oracle = the property's own case runner. Thorough tier (or VERIF_FUZZ set).
+/// An artifact is decoded into its `Case` and confirmed alone through `cfbverif solo`.
+pub fn hist_campaign(ctx: &Ctx, ev: &mut Value, prop: &str) -> Option<Violation> {
+    let want = ctx.tier == Tier::Thorough || std::env::var("VERIF_FUZZ").is_ok();
+    if !want {
+        return None;
+    }
+    let target = "fz_hist";
+    let bin = target_bin(target);
+    if !bin.exists() {
+        ev["coverage"]["libfuzzer_histories"] = json!({"ran": false, "reason": format!("{} not built (./check setup builds it; needs cargo +nightly fuzz)", bin.display())});
+        return None;
+    }
+    let work = scratch_dir().join(format!("fuzz-{}-{}", target, prop));
+    let _ = std::fs::remove_dir_all(&work);
+    let corpus = work.join("corpus");
+    let arts = work.join("artifacts");
+    let _ = std::fs::create_dir_all(&arts);
+    let _ = std::fs::create_dir_all(&corpus);
+    // seed corpus: pseudo-random byte strings (every byte string decodes to a history)
+    let mut x = ctx.seed.wrapping_mul(0x9E37_79B9_7F4A_7C15) | 1;
+    let mut next = move || {
+        x ^= x << 13;
+        x ^= x >> 7;
+        x ^= x << 17;
+        x
+    };
+    let mut seeded = 0;
+    for i in 0..96 {
+        let len = 40 + (next() % 1_300) as usize;
+        let bytes: Vec<u8> = (0..len).map(|_| (next() >> 24) as u8).collect();
+        if std::fs::write(corpus.join(format!("rnd-{:03}", i)), &bytes).is_ok() {
+            seeded += 1;
+        }
+    }
+    let runs = env_u64("VERIF_FUZZ_HIST_RUNS", 60_000);
+    let jobs = env_u64("VERIF_WORKERS", 16);
+    let t0 = std::time::Instant::now();
+    let out = Command::new(&bin)
+        .env("VERIF_FZ_PROP", prop)
+        .arg(&corpus)
+        .arg(format!("-runs={}", runs))
+        .arg(format!("-seed={}", ctx.seed))
+        .arg("-max_len=1400")
+        .arg("-len_control=0")
+        .arg("-timeout=60")
+        .arg("-rss_limit_mb=6000")
+        .arg(format!("-jobs={}", jobs))
+        .arg(format!("-workers={}", jobs))
+        .arg(format!("-artifact_prefix={}/", arts.display()))
+        .current_dir(&work)
+        .output();
+    let execs = executions_in_logs(&work);
+    let corpus_after = std::fs::read_dir(&corpus).map(|r| r.count()).unwrap_or(0);
+    // what the corpus the fuzzer kept looks like: histories by length and start kind
+    let mut ops_hist: std::collections::BTreeMap<String, u64> = Default::default();
+    if let Ok(rd) = std::fs::read_dir(&corpus) {
+        for e in rd.flatten() {
+            if let Ok(d) = std::fs::read(e.path()) {
+                if let Some(c) = fuzzsup::hist_case(prop, &d) {
+                    let b = match c.ops.len() {
+                        0..=5 => "ops_0_5",
+                        6..=20 => "ops_6_20",
+                        21..=40 => "ops_21_40",
+                        _ => "ops_41_plus",
+                    };
+                    *ops_hist.entry(b.to_string()).or_insert(0) += 1;
+                    let st = match c.start {
+                        crate::ops::Start::Fresh => "start_fresh",
+                        crate::ops::Start::Foreign { .. } => "start_foreign",
+                        _ => "start_other",
+                    };
+                    *ops_hist.entry(st.to_string()).or_insert(0) += 1;
+                }
+            }
+        }
+    }
+    let mut artifacts: Vec<PathBuf> = std::fs::read_dir(&arts).map(|r| r.flatten().map(|e| e.path()).collect()).unwrap_or_default();
+    artifacts.sort();
+    ev["coverage"]["libfuzzer_histories"] = json!({
+        "ran": out.is_ok(),
+        "target": target,
+        "oracle_set": prop,
+        "runs_per_job": runs,
+        "jobs": jobs,
+        "executions_reported": execs,
+        "seed_corpus_files": seeded,
+        "corpus_files_after": corpus_after,
+        "corpus_histories": ops_hist,
+        "artifacts": artifacts.len(),
+        "wall_s": t0.elapsed().as_secs_f64(),
+    });
+    if let Some(e) = ev["coverage"]["evaluations"].as_u64() {
+        ev["coverage"]["evaluations"] = json!(e + execs);
+    }
+    let mut found = None;
+    for a in artifacts.iter() {
+        let name = a.file_name().map(|n| n.to_string_lossy().to_string()).unwrap_or_default();
+        let data = match std::fs::read(a) {
+            Ok(d) => d,
+            Err(_) => continue,
+        };
+        let case = match fuzzsup::hist_case(prop, &data) {
+            Some(c) => c,
+            None => continue,
+        };
+        let v = serde_json::to_value(&case).unwrap_or(Value::Null);
+        let tmp = work.join("artifact-case.json");
+        let _ = std::fs::write(&tmp, serde_json::to_string(&v).unwrap_or_default());
+        match solo_process(prop, &tmp, 120) {
+            SoloOutcome::Fail(k, d) => {
+                found = Some(Violation { key: k, detail: format!("{} [libFuzzer history artifact {}]", d, name), case: v, trace: vec![] });
+                break;
+            }
+            SoloOutcome::Hang => {
+                found = Some(Violation { key: "hang|libfuzzer_history".into(), detail: format!("history decoded from artifact {} does not finish within 120 s of CPU time alone", name), case: v, trace: vec![] });
+                break;
+            }
+            SoloOutcome::Abort(w) => {
+                found = Some(Violation { key: format!("abort|libfuzzer_history|{}", w), detail: format!("history decoded from artifact {} kills the process ({})", name, w), case: v, trace: vec![] });
+                break;
+            }
+            SoloOutcome::Pass | SoloOutcome::Known(_) | SoloOutcome::Harness(_) => {
+                // does not reproduce through the oracle alone (fuzzer's own rss/time limit, or a
+                // harness problem): counted, never a violation
+                ev["coverage"]["libfuzzer_histories"]["unreproduced_artifacts"] = json!(ev["coverage"]["libfuzzer_histories"]["unreproduced_artifacts"].as_u64().unwrap_or(0) + 1);
+            }
+        }
+    }
+    let _ = std::fs::remove_dir_all(&work);
+    found
+}
